@@ -7,6 +7,8 @@ package checks
 import (
 	"bytes"
 	"fmt"
+	"os"
+	"path/filepath"
 	"regexp"
 	"strings"
 
@@ -228,9 +230,12 @@ func C09(run *core.Run) {
 	for i := range langs {
 		byName[langs[i].name] = &langs[i]
 	}
-	judge := func(l *c09Lang, ci int, in []byte) (verdict string, out []byte) {
+	judge := func(l *c09Lang, ci int, in []byte, guarded bool) (verdict string, out []byte) {
 		opts := l.configs[ci]
 		m := newM(&opts)
+		if !guarded {
+			goto run
+		}
 		if l.name == "html" || l.name == "svg" || l.name == "css" {
 			if c09ScriptEscape.Match(in) {
 				return "GUARD:html-script-close-decoded", nil
@@ -259,6 +264,7 @@ func C09(run *core.Run) {
 				return "GUARD:" + g, nil
 			}
 		}
+	run:
 		out, err, pan := minifyBytes(m, l.mt, in)
 		if pan != "" {
 			return "minifier panicked: " + pan, out
@@ -336,6 +342,13 @@ func C09(run *core.Run) {
 			}
 		}
 		in := []byte(w.Input)
+		if f := w.Extra["file"]; f != "" {
+			b, err := os.ReadFile(filepath.Join(repoDir(), f))
+			if err != nil {
+				return false, "witness file missing"
+			}
+			in = b
+		}
 		opts := l.configs[ci]
 		out, err, pan := minifyBytes(newM(&opts), l.mt, in)
 		if pan != "" {
@@ -362,10 +375,11 @@ func C09(run *core.Run) {
 		return false, ""
 	})
 	type job struct {
-		l     *c09Lang
-		ci    int
-		label string
-		in    []byte
+		l       *c09Lang
+		ci      int
+		label   string
+		in      []byte
+		guarded bool // random (generated / mutated) inputs pass the admission guards; fixed corpus inputs do not
 	}
 	var jobs []job
 	perFile := run.N(6, 120)
@@ -400,10 +414,10 @@ func C09(run *core.Run) {
 		}
 		for ci := range l.configs {
 			for _, f := range pool {
-				jobs = append(jobs, job{l, ci, f.Name, f.Data})
+				jobs = append(jobs, job{l, ci, f.Name, f.Data, strings.HasPrefix(f.Name, "gen#")})
 			}
 			for _, f := range big {
-				jobs = append(jobs, job{l, ci, f.Name, f.Data})
+				jobs = append(jobs, job{l, ci, f.Name, f.Data, false})
 			}
 		}
 		// mutations and splices
@@ -422,7 +436,7 @@ func C09(run *core.Run) {
 					r = core.Stream(uint64(run.Seed), "c09mut", l.name, fmt.Sprint(fi), fmt.Sprint(j))
 				}
 				other := all[r.Intn(len(all))].Data
-				jobs = append(jobs, job{l, r.Intn(len(l.configs)), fmt.Sprintf("mut(%s)#%d", f.Name, j), mutate(r, l.name, f.Data, other)})
+				jobs = append(jobs, job{l, r.Intn(len(l.configs)), fmt.Sprintf("mut(%s)#%d", f.Name, j), mutate(r, l.name, f.Data, other), true})
 			}
 		}
 	}
@@ -435,7 +449,7 @@ func C09(run *core.Run) {
 		j := jobs[i]
 		run.Eval()
 		cfg := j.l.name + " " + j.l.cfgName[j.ci]
-		v, out := judge(j.l, j.ci, j.in)
+		v, out := judge(j.l, j.ci, j.in, j.guarded)
 		switch {
 		case v == "":
 			if !bytes.Equal(out, j.in) {
